@@ -382,7 +382,7 @@ fn run(ctx: &mut Ctx) {
                 ctx.eval();
                 ctx.count("crowded-table-isolation");
                 let cfg = Cfg::new(opts);
-                if let Some(what) = crowded_case(&cfg, n) {
+                if let Some(what) = crate::run::with_wedge_limit(180_000, || crowded_case(&cfg, n)) {
                     ctx.violation(&format!("C03/crowded/{}", cfg.label()), &format!("{n} aircraft"), || format!("{n} tracked aircraft, then one frame of a new one: {what}"), || json!({"kind": "crowded", "n": n, "cfg": cfg.opts}));
                 }
             }
@@ -649,7 +649,7 @@ fn replay(ctx: &mut Ctx, case: &Value) {
             let o: Vec<&str> = opts.iter().map(|s| s.as_str()).collect();
             let cfg = Cfg::new(&o);
             let n = case.get("n").and_then(|x| x.as_u64()).unwrap_or(1000) as usize;
-            let r = crowded_case(&cfg, n);
+            let r = crate::run::with_wedge_limit(180_000, || crowded_case(&cfg, n));
             crate::run::say(&format!("{n} tracked aircraft, then one frame of a new one, cfg [{}]: {}", cfg.label(), r.clone().unwrap_or_else(|| "all rows kept bit-identical".into())));
             if let Some(what) = r {
                 ctx.violation("C03/crowded", &format!("{n}"), || what, || case.clone());
